@@ -41,7 +41,7 @@ LEAN = {"module": "Pygom.Props.C03",
                      "Pygom.C03.gradJacobian_entry", "Pygom.C03.defined_odeEqnR",
                      "Pygom.C03.gradGrad_entry", "Pygom.C03.grad_grad_is_second_derivative"],
         "extra_modules": ["Pygom.Lemmas.Deriv"]}
-BUDGET = {"quick": {"models": 120, "wide": 36}, "thorough": {"models": 2500, "wide": 900}}
+BUDGET = {"quick": {"models": 120, "wide": 36}, "thorough": {"models": 2500, "wide": 600}}
 RULE = ("random model definitions as in C01 (events routed through the event= keyword so that event order is the declared order); "
         "3 exact points each (one integer valued with zero states) in varied container / dtype forms, away from singularities, results "
         "kept and re-judged after the later calls, parameter re-assignment / restoration, a permuted second instance built in stages and "
@@ -53,7 +53,8 @@ RULE = ("random model definitions as in C01 (events routed through the event= ke
         "against Python's grammar), 8-9 states / 8-12 parameters / 8 events in some cases")
 ASSUMPTIONS = ["sympy.diff / Matrix.jacobian are translation-validated per model against the verified Expr.diff, not proved",
                "finite-difference oracle: central differences in 50-digit arithmetic (h=1e-15 first order, 1e-10 second order)"]
-TRUSTED = ["harness generator, printer and interpreter", "Lean driver JSON codec"]
+TRUSTED = ["harness generator, printer and interpreter", "Lean driver JSON codec",
+           "natural-precedence printer exprs.user_str (checked on every case it is used for against Python's own parser)"]
 
 H1 = mpf("1e-15")
 H2 = mpf("1e-10")
